@@ -653,3 +653,19 @@ pub fn is_name_start(c: char) -> bool {
 pub fn opposite_bracket(c: char) -> char {
     crate::utils::opposite_bracket(c)
 }
+
+/// Number literal reader on a token buffer: Ok((value, unit)) or the error span
+pub fn parse_number_literal(lexer: VLexer, options: &crate::Options<'_>) -> (Result<(f64, Unit), Span>, VLexer) {
+    let span = lexer.0.current_span();
+    let path = std::path::Path::new("");
+    let mut p = crate::parse::ScssParser::new(lexer.0, options, span, path);
+    let r = match err_span(crate::parse::ValueParser::verif_parse_number(&mut p)) {
+        Ok(e) => match e.node {
+            crate::ast::AstExpr::Number { n, unit } => Ok((n.0, unit)),
+            _ => unreachable!("parse_number returns a number"),
+        },
+        Err(s) => Err(s),
+    };
+    let toks = std::mem::replace(&mut p.toks, Lexer::verif_from_tokens(Vec::new(), span, true));
+    (r, VLexer(toks))
+}
